@@ -204,24 +204,36 @@ func (vc *VC) mkSlice(arr, off, ln, cp *Term) *Term {
 	return App("mk-slice", SSlice, arr, off, ln, cp)
 }
 func (vc *VC) slArr(s *Term) *Term {
+	if d, ok := vc.sliceDefs[s.Op]; ok && len(s.Args) == 0 {
+		return d.Args[0]
+	}
 	if s.Op == "mk-slice" {
 		return s.Args[0]
 	}
 	return App("s.arr", SInt, s)
 }
 func (vc *VC) slOff(s *Term) *Term {
+	if d, ok := vc.sliceDefs[s.Op]; ok && len(s.Args) == 0 {
+		return d.Args[1]
+	}
 	if s.Op == "mk-slice" {
 		return s.Args[1]
 	}
 	return App("s.off", vc.idxSort(), s)
 }
 func (vc *VC) slLen(s *Term) *Term {
+	if d, ok := vc.sliceDefs[s.Op]; ok && len(s.Args) == 0 {
+		return d.Args[2]
+	}
 	if s.Op == "mk-slice" {
 		return s.Args[2]
 	}
 	return App("s.len", vc.idxSort(), s)
 }
 func (vc *VC) slCap(s *Term) *Term {
+	if d, ok := vc.sliceDefs[s.Op]; ok && len(s.Args) == 0 {
+		return d.Args[3]
+	}
 	if s.Op == "mk-slice" {
 		return s.Args[3]
 	}
@@ -374,7 +386,16 @@ func (vc *VC) iRem(a, b *Term, signed bool) *Term {
 	if bv, ok := intLitVal(b); ok && bv.Sign() > 0 {
 		return Ite(App(">=", SBool, a, IntLit64(0)), App("mod", SInt, a, b), App("-", SInt, App("mod", SInt, App("-", SInt, a), b)))
 	}
-	return App("tmod", SInt, a, b)
+	r := App("tmod", SInt, a, b)
+	// bounds of the remainder for a symbolic positive divisor, stated explicitly (a theorem of integer arithmetic;
+	// the solvers do not derive it from the nonlinear definition reliably)
+	key := "tmodbound:" + r.String()
+	if !vc.declSeen[key] {
+		vc.declSeen[key] = true
+		z := IntLit64(0)
+		vc.facts = append(vc.facts, Implies(And(App(">=", SBool, a, z), App(">", SBool, b, z)), And(App(">=", SBool, r, z), App("<", SBool, r, b), Implies(App("<", SBool, a, b), Eq(r, a)))))
+	}
+	return r
 }
 
 func (vc *VC) iCmp(op string, a, b *Term, signed bool) *Term {
